@@ -45,8 +45,10 @@ Definition is_marker (obs : sx) : bool :=
 
 (** ================= the monitor ================= *)
 (** Clauses: 1 acknowledged upload unreadable after a graceful shutdown (not evicted by rotation);
-    2 upload acknowledged after the final synchronisation began; 3 well-formed upload ending after
-    that point failed with something other than UNAVAILABLE; 4 acknowledged upload unreadable after a
+    2 upload (one that wrote into the block list) acknowledged after the final synchronisation began;
+    3 well-formed upload that wrote into the block list and ended after that point failed with
+    something other than UNAVAILABLE (a hierarchical upload of already stored content writes nothing;
+    it may legitimately end with OK, or INTERNAL when the stored copy was rotated out meanwhile); 4 acknowledged upload unreadable after a
     process crash that followed a completed commit without upload/refresh since its start;
     5 wrong bytes returned; 7 panic; 8 no quiescence / state unreadable. *)
 
@@ -149,7 +151,7 @@ Definition mon_entry (cfg objs : sx) (ops : list sx) (m : mst) (x : sx) : mst :=
             let wrote := match assoc_nat u (m_upl m) with Some (_, Some _) => true | _ => false end in
             (* (a hierarchical upload of content that is already stored writes nothing and loses nothing) *)
             let v2 := if Z.eqb code 0 && m_final m && wrote then [2] else [] in
-            let v3 := if m_final m && wf && negb (Z.eqb code 0) && negb (Z.eqb code 14) then [3] else [] in
+            let v3 := if m_final m && wf && wrote && negb (Z.eqb code 0) && negb (Z.eqb code 14) then [3] else [] in
             let copies :=
               if Z.eqb code 0 && negb (m_final m) then
                 match assoc_nat u (m_upl m) with
